@@ -12,12 +12,19 @@
   The write direction is proved for the model (second half of this file): `C04_write_holds` — the reference
   reader reads `encode v` back as `specImage v` for every well-formed `v` with grammar decimals, at any
   nesting depth (ladder `spec_str` … `spec_rows`; helper lemmas in `Hs/Lemmas/SpecRt*.lean`).
+  The read direction is proved for the model (last part of this file): `C04_read_holds` — the grammar is the
+  relation `Hs.Spell.SpellsTop v bs` ("the text `bs` is a sentence that denotes `v`", Hs/Spec/ZincSpell.lean: every
+  legal choice of blanks, LF/CRLF, Str/Uri escape, number spelling, trailing list comma, dict separator and grid
+  layout) and the byte-exact model of the library's reader decodes every such sentence of a well-formed value to
+  the lexical image of that value (helper lemmas in `Hs/Lemmas/ZincSpell*.lean`).
 -/
 import Hs.Spec.ZincRead
 import Hs.Model.ZincEnc
 import Hs.Model.ZincParse
 import Hs.Gen.ZincEscapes
 import Hs.Lemmas.SpecRtTop
+import Hs.Lemmas.ZincSpellEnc
+import Hs.Thm.C01
 namespace Hs.C04
 open Hs Hs.Zinc
 
@@ -481,5 +488,259 @@ example : Hs.Spec.read (encode exZeroRows) = some (specImage exZeroRows) :=
   C04_write_holds exZeroRows (by decide +kernel) (by decide +kernel)
 
 end examples
+
+/-! ## The read direction for the model: a proof
+
+`Hs.Spell.Spells v bs` / `Hs.Spell.SpellsTop v bs` (Hs/Spec/ZincSpell.lean, written from the grammar and from the reference
+writer harness/src/spell.rs) say that the text `bs` is a sentence of the Zinc grammar denoting `v` (nested resp. as a
+whole document).  The freedoms of the relation are exactly those the property lists: blanks (space, tab) after
+`[` `{` `,` `:` and before `,` `]` `}`, inside `C( , )` and `Type( )`; line endings LF or CRLF, chosen line by line;
+every Str / Uri character raw when legal, by its short escape, or as `\uXXXX` with upper- or lower-case hex digits;
+numbers with sign, fraction, exponent (`e`/`E`, optional sign) and `_` after any digit of any digit run; trailing
+list comma; dict tags separated by a space (and blanks) or by a comma (with blanks around); Marker tags with or
+without `:M`; grid meta on the `ver` line, column meta, empty cells, nested grids in `<<` … `>>`, an optional blank
+line at the end of a document; time fractions with 1–9 digits.
+
+Numbers, coordinates and timestamps are lexical, as in C01: the value carries the numeral / token text (`Flt.txt`:
+the sentence's numeral without `_`, exponent letter `e`; `DateTime.txt`: the token, so `…Z` and `…Z UTC` are two
+lexical values), and the theorem says the reader returns exactly that numeral / token.  `wfS` is C01's `wfV`
+without the conditions on the numeral (which the spelling relation itself fixes).
+
+Not in the relation (decided by exchange with the reference writer only, or not at all): a lone CR as line ending
+(spell.rs uses it for whole documents); the Uri escapes `\:` `\/` `\?` `\#` … (implementations disagree on what they
+denote; spell.rs does not use them either); blanks before a line ending or around a whole document; a tab as the
+first byte of a tag separator.  Residual hypotheses as in C01: nesting ≤ 63, `ver` 3.0, meta not `Some(empty)`,
+single-column grids without missing cell, XStr type other than `C`. -/
+
+open Hs.Spell in
+/-- The property's read direction, full strength: every sentence is decoded to (the lexical image of) the value it
+denotes. -/
+def C04_read (WF : Val → Prop) : Prop :=
+  ∀ v bs, WF v → SpellsTop v bs → fromBytes bs = .ok (Hs.C01.lexImage v)
+
+/-- … "at any nesting depth" -/
+def C04_read_full : Prop := C04_read (fun v => wfS v = true)
+
+open Hs.Spell in
+/-- **C04, read direction, for the model**: every sentence of the grammar that denotes a well-formed value `v` (`wfS`:
+identifier names, id alphabets, capitalised XStr types other than `C`, database units, valid calendar fields and
+resolvable zones, sorted dict keys, grids with `ver` 3.0, at least one column, distinct column names, meta absent
+or non-empty, row keys among the column names, no missing cell in a single-column grid) nested at most 63 deep
+(`depthOk`: the reader refuses more, see `Hs.C01.C01_cex_depth`) — with ANY legal choice of blanks, line endings,
+escapes, number spellings, trailing comma, dict separators and grid layout — is decoded by the model of
+`decode::from_str` to the lexical image of `v`. -/
+theorem C04_read_holds (v : Val) (bs : List UInt8) (hwf : wfS v = true) (hd : depthOk v = true)
+    (h : SpellsTop v bs) : fromBytes bs = .ok (Hs.C01.lexImage v) := by
+  rw [Hs.C01.lexImage_eq]
+  exact read_of_spells v bs hwf (by simpa [depthOk] using hd) h
+
+/-- the stated property `C04_read`, for the explicit decidable predicates -/
+theorem C04_read_partial : C04_read (fun v => wfS v = true ∧ depthOk v = true) :=
+  fun v bs h hs => C04_read_holds v bs h.1 h.2 hs
+
+/-- C01's well-formedness implies `wfS`: the theorem covers every value C01 covers -/
+theorem C04_read_wfV (v : Val) (bs : List UInt8) (hwf : wfV v = true) (hd : depthOk v = true)
+    (h : Hs.Spell.SpellsTop v bs) : fromBytes bs = .ok (Hs.C01.lexImage v) :=
+  C04_read_holds v bs (wfS_of_wfV v hwf) hd h
+
+open Hs.Spell in
+/-- nested position (list element, tag value, cell): after any text that may legally follow a value (`DelimW`:
+nothing, `,` `]` `}`, a line ending, or blanks followed by one of these or by a tag name) the reader returns the
+image of `v` and stops right behind the sentence -/
+theorem C04_read_nested (v : Val) (bs : List UInt8) (hwf : wfS v = true) (h : Spells v bs)
+    (depth f1 f2 : Nat) (s : Scan) (rest : List UInt8) (hat : At s (bs ++ rest)) (hs : s.stash = [])
+    (hdl : DelimW rest) (hf1 : 4 * bs.length + 8 ≤ f1) (hf2 : 4 * bs.length + 8 ≤ f2) (hn : depth + nestV v < 64) :
+    ∃ p p', lexRead f1 s = .ok p ∧ parseValue f2 depth p = .ok (Hs.C01.lexImage v, p') ∧ At p'.sc rest := by
+  obtain ⟨p, p', e1, _, _, e2, hp⟩ := (spV v bs hwf h).rd depth f1 f2 s rest hat hs hdl hf1 hf2 hn
+  exact ⟨p, p', e1, by rw [Hs.C01.lexImage_eq]; exact e2, hp.1⟩
+
+/-- **the writer's document is one of the sentences** (non-vacuity of the relation; numbers printed as
+`-?d+(.d+)?`, i.e. what Rust's `Display for f64` prints) -/
+theorem C04_writer_spells (v : Val) (hwf : wfV v = true) (hs : Hs.Spec.strictV v = true) :
+    Hs.Spell.SpellsTop v (encode v) :=
+  spellsTop_encode v hwf hs
+
+/-- C01 for strict values is a corollary of the read direction -/
+theorem C04_read_implies_C01 (v : Val) (hwf : wfV v = true) (hs : Hs.Spec.strictV v = true) (hd : depthOk v = true) :
+    fromBytes (encode v) = .ok (Hs.C01.lexImage v) :=
+  C04_read_wfV v (encode v) hwf hd (C04_writer_spells v hwf hs)
+
+/-- the nesting bound cannot be dropped: 64 nested lists are a sentence (the writer's), and the reader refuses it -/
+theorem C04_read_cex_depth : ¬ C04_read_full := by
+  intro h
+  have hsp := C04_writer_spells (deepList 64) (by decide +kernel) (by decide +kernel)
+  have := h (deepList 64) _ (by decide +kernel) hsp
+  have hno : (fromBytes (encode (deepList 64))).isOk = false := by decide +kernel
+  rw [this] at hno
+  cases hno
+
+/-! ### sentences beyond the writer's image -/
+
+section spellings
+open Hs.Spell
+
+abbrev B (s : String) : List UInt8 := bytesOfAscii s
+
+theorem digitsOf (ds bs : List UInt8) (h1 : ds.all digitB = true) (h2 : bs.filter (· != 95) = ds)
+    (h3 : (match bs with | d :: _ => digitB d | [] => false) = true) : Digits ds bs := by
+  refine ⟨by simpa using h1, h2, ?_⟩
+  cases bs with
+  | nil => simp at h3
+  | cons d r => exact ⟨d, r, rfl, h3⟩
+
+theorem blanksOf (ws : List UInt8) (h : ws.all (fun b => b == 32 || b == 9) = true) : Blanks ws := by
+  intro b hb
+  have := List.all_eq_true.mp h b hb
+  simpa using this
+
+/-- `1_000.5e+3kW`: the numeral is `1000.5e+3` -/
+def nKw : Num := ⟨⟨0, "1000.5e+3".toList⟩, some "kW".toList⟩
+theorem nKw_sp : NumSp nKw (B "1_000.5e+3kW") :=
+  (by decide : B "1_000.5" ++ 101 :: ([43] ++ B "3") ++ unitText nKw.unit = B "1_000.5e+3kW") ▸
+  NumSp.exp nKw (by decide) (by decide) (B "1000.5") (B "1_000.5")
+    ((by decide : (if false then [45] else []) ++ B "1000" ++ 46 :: B "5" = B "1000.5") ▸
+     (by decide : (if false then [45] else []) ++ B "1_000" ++ 46 :: B "5" = B "1_000.5") ▸
+      Decimal.frac false (B "1000") (B "1_000") (B "5") (B "5")
+      (digitsOf _ _ (by decide) (by decide) (by decide)) (digitsOf _ _ (by decide) (by decide) (by decide)))
+    101 (Or.inl rfl) [43] (Or.inr (Or.inl rfl)) (B "3") (B "3") (digitsOf _ _ (by decide) (by decide) (by decide))
+    (by decide)
+
+/-- `-2_5E-07`: upper-case exponent letter, sign, `_`, leading zero -/
+def nNeg : Num := ⟨⟨0, "-25e-07".toList⟩, none⟩
+theorem nNeg_sp : NumSp nNeg (B "-2_5E-0_7") :=
+  (by decide : B "-2_5" ++ 69 :: ([45] ++ B "0_7") ++ unitText nNeg.unit = B "-2_5E-0_7") ▸
+  NumSp.exp nNeg (by decide) (by decide) (B "-25") (B "-2_5")
+    ((by decide : (if true then [45] else []) ++ B "25" = B "-25") ▸
+     (by decide : (if true then [45] else []) ++ B "2_5" = B "-2_5") ▸
+      Decimal.int true (B "25") (B "2_5") (digitsOf _ _ (by decide) (by decide) (by decide)))
+    69 (Or.inr rfl) [45] (Or.inr (Or.inr rfl)) (B "07") (B "0_7") (digitsOf _ _ (by decide) (by decide) (by decide))
+    (by decide)
+
+/-- `"aéé😀\$\n"`: raw ASCII, `\u` with an upper-case hex digit, raw two- and four-byte characters, short escapes -/
+def sTxt : List Char := "aéé😀$\n".toList
+def sBytes : List UInt8 :=
+  [34, 97, 92, 117, 48, 48, 69, 57, 195, 169, 240, 159, 152, 128, 92, 36, 92, 110, 34]
+theorem sTxt_sp : Quoted sTxt sBytes :=
+  (by decide +kernel : 34 :: (([97] ++ ([92, 117, 48, 48, 69, 57] ++ (encChar 'é' ++ (encChar '😀' ++ ([92, 36] ++
+      ([92, 110] ++ [])))))) ++ [34]) = sBytes) ▸
+  Quoted.mk sTxt _
+    (StrBody.cons 'a' _ _ _ ((by decide +kernel : encChar 'a' = [97]) ▸ StrCh.raw 'a' (by decide) (by decide) (by decide) (by decide))
+    (StrBody.cons 'é' _ _ _ (StrCh.u 'é' _ (UEsc.mk 'é' 48 48 69 57 (by decide) ⟨by decide, Or.inl (by decide)⟩
+        ⟨by decide, Or.inl (by decide)⟩ ⟨by decide, Or.inr (by decide)⟩ ⟨by decide, Or.inl (by decide)⟩))
+    (StrBody.cons 'é' _ _ _ (StrCh.raw 'é' (by decide) (by decide) (by decide) (by decide))
+    (StrBody.cons '😀' _ _ _ (StrCh.raw '😀' (by decide) (by decide) (by decide) (by decide))
+    (StrBody.cons '$' _ _ _ StrCh.dollar
+    (StrBody.cons '\n' _ _ _ StrCh.n StrBody.nil))))))
+
+/-- ``[ 1_000.5e+3kW ,"aéé😀\$\n",\t-2_5E-0_7, ]``: blanks after `[`, before and after `,`, a tab, a trailing
+comma with a blank before `]` -/
+def exListV : Val := .list (.cons (.num nKw) (.cons (.str sTxt) (.cons (.num nNeg) .nil)))
+def exListB : List UInt8 := B "[ 1_000.5e+3kW ," ++ sBytes ++ [44, 9] ++ B "-2_5E-0_7, ]"
+theorem exList_sp : Spells exListV exListB :=
+  (by decide +kernel : 91 :: ([32] ++ (B "1_000.5e+3kW" ++ [32] ++ 44 :: ([] ++ (sBytes ++ [] ++ 44 :: ([9] ++
+      (B "-2_5E-0_7" ++ [] ++ 44 :: [32]))))) ++ [93]) = exListB) ▸
+  Spells.list _ [32] _ (blanksOf _ (by decide))
+    (SpItems.cons _ _ _ _ [32] [] _ (Spells.num nKw _ nKw_sp) (blanksOf _ (by decide)) (blanksOf _ (by decide))
+      (SpItems.cons _ _ _ _ [] [9] _ (Spells.str sTxt _ sTxt_sp) (blanksOf _ (by decide)) (blanksOf _ (by decide))
+        (SpItems.lastComma _ _ [] [32] (Spells.num nNeg _ nNeg_sp) (blanksOf _ (by decide)) (blanksOf _ (by decide)))))
+
+example : wfS exListV = true ∧ depthOk exListV = true := by decide +kernel
+/-- the reader decodes that sentence: numerals `1000.5e+3` (unit kW) and `-25e-07`, the string `aéé😀$\n` -/
+example : fromBytes exListB = .ok (Hs.C01.lexImage exListV) :=
+  C04_read_holds exListV exListB (by decide +kernel) (by decide +kernel)
+    (SpellsTop.other _ _ (by intro _ _ _ _ e; cases e) exList_sp)
+
+/-- `{ a:M b , c: [ ],d }`: explicit `:M`, space and comma separators with blanks, blanks after `:` and inside `[ ]` -/
+def exDictV : Val := .dict (.cons ['a'] .marker (.cons ['b'] .marker (.cons ['c'] (.list .nil) (.cons ['d'] .marker .nil))))
+def exDictB : List UInt8 := B "{ a:M b , c: [ ],d }"
+theorem exDict_sp : Spells exDictV exDictB :=
+  (by decide +kernel : 123 :: ([32] ++ ((encChars ['a'] ++ 58 :: ([] ++ [77])) ++ 32 :: ([] ++ (encChars ['b'] ++ [32] ++ 44 ::
+      ([32] ++ ((encChars ['c'] ++ 58 :: ([32] ++ (91 :: ([32] ++ [] ++ [93])))) ++ [] ++ 44 :: ([] ++ encChars ['d'])))))) ++
+      [32] ++ [125]) = exDictB) ▸
+  Spells.dict _ [32] _ [32] (blanksOf _ (by decide))
+    (SpTags.space true _ _ _ _ _ _ [] _ (SpTag.val ['a'] .marker [] [77] (blanksOf _ (by decide)) Spells.marker)
+      (blanksOf _ (by decide))
+      (SpTags.comma _ _ _ _ _ _ [32] [32] _ (SpTag.marker ['b']) (blanksOf _ (by decide)) (blanksOf _ (by decide))
+        (SpTags.comma _ _ _ _ _ _ [] [] _
+          (SpTag.val ['c'] (.list .nil) [32] _ (blanksOf _ (by decide))
+            (Spells.list .nil [32] [] (blanksOf _ (by decide)) SpItems.nil))
+          (blanksOf _ (by decide)) (blanksOf _ (by decide))
+          (SpTags.one true _ _ _ (SpTag.marker ['d'])))))
+    (blanksOf _ (by decide))
+
+example : fromBytes exDictB = .ok (Hs.C01.lexImage exDictV) :=
+  C04_read_holds exDictV exDictB (by decide +kernel) (by decide +kernel)
+    (SpellsTop.other _ _ (by intro _ _ _ _ e; cases e) exDict_sp)
+
+/-- a grid document with CRLF and LF line endings mixed, meta on the `ver` line, column meta, blanks after the
+commas, an empty cell, and a nested grid in `<<` … `>>`:
+```
+ver:"3.0" dis:"G" m\r\n
+a,  b foo\r\n
+1,\n
+, <<\r\n
+ver:"3.0"\n
+x\n
+N\n
+>>\r\n
+```  -/
+def exInnerG : Val := .grid .none (.cons ['x'] .none .nil) (.cons (.cons ['x'] .null .nil) .nil) "3.0".toList
+def exOuterG : Val :=
+  .grid (.some (.cons "dis".toList (.str ['G']) (.cons ['m'] .marker .nil)))
+    (.cons ['a'] .none (.cons ['b'] (.some (.cons "foo".toList .marker .nil)) .nil))
+    (.cons (.cons ['a'] (.num ⟨⟨0, ['1']⟩, none⟩) .nil) (.cons (.cons ['b'] exInnerG .nil) .nil))
+    "3.0".toList
+def exInnerB : List UInt8 := B "<<\r\nver:\"3.0\"\nx\nN\n>>"
+def exOuterB : List UInt8 := B "ver:\"3.0\" dis:\"G\" m\r\na,  b foo\r\n1,\n, " ++ exInnerB ++ B "\r\n"
+
+theorem exInner_sp : Spells exInnerG exInnerB :=
+  (by decide +kernel : 60 :: 60 :: ([13, 10] ++ ([118, 101, 114, 58, 34, 51, 46, 48, 34] ++ [] ++ [10] ++ (encChars ['x'] ++ []) ++ [10]
+      ++ (cellText [(['x'], [78])] ['x'] ++ [10] ++ [])) ++ [62, 62]) = exInnerB) ▸
+  Spells.grid _ _ _ _ [13, 10] _ Nl.crlf
+    (SpGrid.mk _ _ _ _ [] [10] _ [10] _ SpMeta.none Nl.lf (SpCols.one ['x'] .none [] SpMeta.none) Nl.lf
+      (SpRows.cons _ _ _ [(['x'], [78])] _ [10] [] (SpCells.cons ['x'] .null .nil [78] [] Spells.null SpCells.nil)
+        (RowLine.one _ ['x']) Nl.lf (SpRows.nil _)))
+
+theorem one_sp : Spells (.num ⟨⟨0, ['1']⟩, none⟩) [49] :=
+  Spells.num _ _ ((by decide : ((if false then [45] else []) ++ [49]) ++ unitText (none : Option (List Char)) = [49]) ▸
+    NumSp.dec ⟨⟨0, ['1']⟩, none⟩ (by decide) (by decide) _ _
+      (Decimal.int false [49] [49] (digitsOf _ _ (by decide) (by decide) (by decide))) (by decide))
+
+theorem exOuter_sp : SpellsTop exOuterG exOuterB :=
+  (by decide +kernel : [118, 101, 114, 58, 34, 51, 46, 48, 34] ++ (32 :: ((encChars "dis".toList ++ 58 :: ([] ++ [34, 71, 34])) ++
+      32 :: ([] ++ encChars ['m']))) ++ [13, 10] ++ (encChars ['a'] ++ [] ++ 44 :: ([32, 32] ++ (encChars ['b'] ++ (32 :: encChars "foo".toList)))) ++ [13, 10]
+      ++ ((cellText [(['a'], [49])] ['a'] ++ 44 :: ([] ++ cellText [(['a'], [49])] ['b'])) ++ [10] ++
+          ((cellText [(['b'], exInnerB)] ['a'] ++ 44 :: ([32] ++ cellText [(['b'], exInnerB)] ['b'])) ++ [13, 10] ++ [])) = exOuterB) ▸
+  SpellsTop.grid _ _ _ _ _
+    (SpGrid.mk _ _ _ _ _ [13, 10] _ [13, 10] _
+      (SpMeta.some _ _ (SpTags.space false _ _ _ _ _ _ [] _
+        (SpTag.val "dis".toList (.str ['G']) [] [34, 71, 34] (blanksOf _ (by decide))
+          (Spells.str ['G'] _ ((by decide +kernel : 34 :: ((encChar 'G' ++ []) ++ [34]) = [34, 71, 34]) ▸
+            Quoted.mk ['G'] _ (StrBody.cons 'G' _ _ _ (StrCh.raw 'G' (by decide) (by decide) (by decide) (by decide)) StrBody.nil))))
+        (blanksOf _ (by decide)) (SpTags.one false _ _ _ (SpTag.marker ['m']))))
+      Nl.crlf
+      (SpCols.cons ['a'] .none ['b'] _ .nil [] [32, 32] _ SpMeta.none (blanksOf _ (by decide))
+        (SpCols.one ['b'] _ _ (SpMeta.some _ _ (SpTags.one false _ _ _ (SpTag.marker "foo".toList)))))
+      Nl.crlf
+      (SpRows.cons _ _ _ [(['a'], [49])] _ [10] _ (SpCells.cons ['a'] _ .nil [49] [] one_sp SpCells.nil)
+        (RowLine.cons _ ['a'] ['b'] [] [] _ (blanksOf _ (by decide)) (RowLine.one _ ['b'])) Nl.lf
+        (SpRows.cons _ _ _ [(['b'], exInnerB)] _ [13, 10] [] (SpCells.cons ['b'] _ .nil exInnerB [] exInner_sp SpCells.nil)
+          (RowLine.cons _ ['a'] ['b'] [] [32] _ (blanksOf _ (by decide)) (RowLine.one _ ['b'])) Nl.crlf
+          (SpRows.nil _))))
+
+example : wfS exOuterG = true ∧ depthOk exOuterG = true := by decide +kernel
+example : fromBytes exOuterB = .ok (Hs.C01.lexImage exOuterG) :=
+  C04_read_holds exOuterG exOuterB (by decide +kernel) (by decide +kernel) exOuter_sp
+
+/-- a Time with its fraction written with one digit (`12:00:00.5`) and padded (`12:00:00.5000`) -/
+def exTime : Time := ⟨12, 0, 0, 500000000, "12:00:00.500".toList⟩
+example : timeOk exTime = true := by decide +kernel
+example : TimeSp exTime (B "12:00:00.5") :=
+  TimeSp.unpad _ _ (TimeSp.unpad _ (B "12:00:00.50") ((by decide +kernel : encChars exTime.txt = B "12:00:00.50" ++ [48]) ▸ TimeSp.canon exTime)
+    (by decide)) (by decide)
+example : TimeSp exTime (B "12:00:00.5000") :=
+  TimeSp.pad _ _ ((by decide +kernel : encChars exTime.txt = B "12:00:00.500") ▸ TimeSp.canon exTime) (by decide) (by decide)
+
+end spellings
 
 end Hs.C04
